@@ -78,6 +78,27 @@ impl Property for C10 {
                 }
             }
         }
+        for t in [TID_D, TID_A, 18u8] {
+            let c = fixed_cap(t).unwrap_or(usize::MAX);
+            for n in LONG_LENS {
+                if !sh.mine() {
+                    continue;
+                }
+                let n = n.min(c);
+                for a in long_values(n) {
+                    for m in [n + 1, n + 64, (n + 1000).min(c), a.significant().max(1)] {
+                        if m > c || m < a.significant() {
+                            continue;
+                        }
+                        for yprov in [Prov::Canon, Prov::Spare(4200), Prov::LongThenTrunc(130)] {
+                            if !f(C10Case { x: Operand::canon(t, a.clone()), y: Operand { ty: t, bits: a.zext(m), prov: yprov } }) {
+                                return;
+                            }
+                        }
+                    }
+                }
+            }
+        }
         for t in 0..NT {
             let c = fixed_cap(t).unwrap_or(320);
             let w = WORD_BITS[t as usize];
